@@ -54,18 +54,18 @@ func Corpus() []*Hist {
 			{K: "upload", F: 0, Pin: true}, {K: "upload", F: 1}, {K: "delete", F: 0}, {K: "delete", F: 1}}},
 		// seeded change C12-1 (setPin's gc counter decrement must be a DIRECT write): every chunk of a cached file is pinned by ONE
 		// Set(ModeSetPin, a1..an) under the file context; the file leaves the gc index; cache pressure; the run must not touch it
-		{Kind: "corpus-pinset-whole-cached-file", Base: baseKey, Cap: 4, Files: []FileSpec{A, fa("c.bin", 3)}, Ops: []Op{
+		{Kind: "corpus-pinset-whole-cached-file", Base: baseKey, Cap: 4, Files: []FileSpec{A, fa("c.bin", 3, 4)}, Ops: []Op{
 			{K: "fetchpyr", F: 0}, {K: "fetch", F: 0, Leaves: all(3)}, {K: "pinset", F: 0},
-			{K: "fetchpyr", F: 1}, {K: "fetch", F: 1, Leaves: all(1)}, {K: "gc"}, {K: "unpinset", F: 0}, {K: "gc"}}},
+			{K: "fetchpyr", F: 1}, {K: "fetch", F: 1, Leaves: all(2)}, {K: "gc"}, {K: "unpinset", F: 0}, {K: "gc"}}},
 		// the same with ONE Put(ModePutRequestPin, chunks...) for the data chunks after the pyramid was pinned by one Set call
-		{Kind: "corpus-putpin-cached-file", Base: baseKey, Cap: 4, Files: []FileSpec{A, fa("c.bin", 3)}, Ops: []Op{
+		{Kind: "corpus-putpin-cached-file", Base: baseKey, Cap: 4, Files: []FileSpec{A, fa("c.bin", 3, 4)}, Ops: []Op{
 			{K: "fetchpyr", F: 0}, {K: "pinset", F: 0, Leaves: []int{3, 4, 5, 6}}, {K: "putpin", F: 0, Leaves: all(3)},
-			{K: "fetchpyr", F: 1}, {K: "fetch", F: 1, Leaves: all(1)}, {K: "gc"}}},
+			{K: "fetchpyr", F: 1}, {K: "fetch", F: 1, Leaves: all(2)}, {K: "gc"}}},
 		// known (F-gc-unpins): only a SUBSET of the cached file's chunks is pinned by one Set call: the file stays a candidate, the
 		// pinned chunks go with it
-		{Kind: "corpus-pinset-subset-cached-file", Base: baseKey, Cap: 4, Files: []FileSpec{A, fa("c.bin", 3)}, Ops: []Op{
+		{Kind: "corpus-pinset-subset-cached-file", Base: baseKey, Cap: 4, Files: []FileSpec{A, fa("c.bin", 3, 4)}, Ops: []Op{
 			{K: "fetchpyr", F: 0}, {K: "fetch", F: 0, Leaves: all(3)}, {K: "pinset", F: 0, Leaves: []int{0, 2}},
-			{K: "fetchpyr", F: 1}, {K: "fetch", F: 1, Leaves: all(1)}, {K: "gc"}}},
+			{K: "fetchpyr", F: 1}, {K: "fetch", F: 1, Leaves: all(2)}, {K: "gc"}}},
 		// DELETE of a bare multi-chunk reference of which only the root chunk is stored: the manifest probe of the
 		// traversal needs the whole content -> 500, nothing changes (minimised correspondence disagreement)
 		{Kind: "corpus-delete-bare-root-only", Base: baseKey, Cap: 100, Files: []FileSpec{fb("b", 3, 1)}, Ops: []Op{
